@@ -156,3 +156,266 @@ Section Respell.
         cbn [forallb snd] in Hc. apply andb_true_iff in Hc as [Hc1 Hc2]. cbn [map fst snd]. rewrite (proj2 Hx Hc1), (IHl Hr Hc2). reflexivity.
   Qed.
 End Respell.
+
+(* ================================================================================================================================
+   Which literals are canonical
+   ================================================================================================================================ *)
+(* the literal is an integer within [i128::MIN, u128::MAX]: one of as_u64 / as_i64 / as_u128 / as_i128 reads it *)
+Definition int128_lit (n : numlit) : bool := lit_is_int n && (I128_MIN <=? lit_int n)%Z && (lit_int n <=? U128_MAX)%Z.
+
+Lemma respell_int fx n : num_ok n = true -> int128_lit n = true -> respell_lit fx (render_num n) = itoa_z (lit_int n).
+Proof.
+  intros Hok H. unfold int128_lit in H. apply andb_prop in H as [H Hhi]. apply andb_prop in H as [Hi Hlo].
+  pose proof (lit_abs_nonneg n) as Hnn.
+  unfold respell_lit, ap_as_u64, ap_as_i64, ap_as_u128, ap_as_i128.
+  rewrite !(std_parse_int_lit _ _ _ n Hok), Hi. unfold ApNumber.in_range. cbn [andb orb].
+  unfold lit_int in *. unfold U64_MAX, I64_MIN, I64_MAX, U128_MAX, I128_MIN, I128_MAX in *.
+  destruct (nneg n); cbn [negb andb orb].
+  - destruct ((-9223372036854775808 <=? - lit_abs n) && (- lit_abs n <=? 9223372036854775807))%Z eqn:H64; [reflexivity|].
+    assert (H128 : ((-170141183460469231731687303715884105728 <=? - lit_abs n) && (- lit_abs n <=? 170141183460469231731687303715884105727))%Z = true) by lia.
+    rewrite H128. reflexivity.
+  - destruct ((0 <=? lit_abs n) && (lit_abs n <=? 18446744073709551615))%Z eqn:H64.
+    + unfold itoa_z. assert (Hn : (lit_abs n <? 0)%Z = false) by lia. rewrite Hn. reflexivity.
+    + assert (Hi64 : ((-9223372036854775808 <=? lit_abs n) && (lit_abs n <=? 9223372036854775807))%Z = false) by lia. rewrite Hi64.
+      assert (H128 : ((0 <=? lit_abs n) && (lit_abs n <=? 340282366920938463463374607431768211455))%Z = true) by lia.
+      rewrite H128. reflexivity.
+Qed.
+
+Lemma respell_nonint fx n : num_ok n = true -> int128_lit n = false ->
+  respell_lit fx (render_num n) =
+  match ap_as_f64 (render_num n) with
+  | Some f => if beq_bytes (ryu64 fx (bits_of_b64 f)) (render_num n) || beq_bytes (disp64 fx (bits_of_b64 f)) (render_num n)
+              then ryu64 fx (bits_of_b64 f) else render_num n
+  | None => render_num n
+  end.
+Proof.
+  intros Hok H. unfold int128_lit in H. pose proof (lit_abs_nonneg n) as Hnn.
+  unfold respell_lit, ap_as_u64, ap_as_i64, ap_as_u128, ap_as_i128.
+  rewrite !(std_parse_int_lit _ _ _ n Hok). unfold ApNumber.in_range.
+  destruct (lit_is_int n); cbn [andb] in *; [|reflexivity].
+  unfold lit_int in *. unfold U64_MAX, I64_MIN, I64_MAX, U128_MAX, I128_MIN, I128_MAX in *.
+  destruct (nneg n); cbn [negb andb orb].
+  - assert (H1 : ((-9223372036854775808 <=? - lit_abs n) && (- lit_abs n <=? 9223372036854775807))%Z = false) by lia.
+    assert (H2 : ((-170141183460469231731687303715884105728 <=? - lit_abs n) && (- lit_abs n <=? 170141183460469231731687303715884105727))%Z = false) by lia.
+    rewrite H1, H2. reflexivity.
+  - assert (H1 : ((0 <=? lit_abs n) && (lit_abs n <=? 18446744073709551615))%Z = false) by lia.
+    assert (H2 : ((-9223372036854775808 <=? lit_abs n) && (lit_abs n <=? 9223372036854775807))%Z = false) by lia.
+    assert (H3 : ((0 <=? lit_abs n) && (lit_abs n <=? 340282366920938463463374607431768211455))%Z = false) by lia.
+    assert (H4 : ((-170141183460469231731687303715884105728 <=? lit_abs n) && (lit_abs n <=? 170141183460469231731687303715884105727))%Z = false) by lia.
+    rewrite H1, H2, H3, H4. reflexivity.
+Qed.
+
+(* the re-spelling of a well-formed literal, by its parts *)
+Theorem respell_lit_spec : forall fx n, num_ok n = true ->
+  respell_lit fx (render_num n) =
+  if int128_lit n then (if nneg n && (lit_abs n =? 0)%Z then [48] else render_num n)          (* `-0` -> `0`, every other integer kept *)
+  else match ap_as_f64 (render_num n) with
+       | Some f => if beq_bytes (ryu64 fx (bits_of_b64 f)) (render_num n) || beq_bytes (disp64 fx (bits_of_b64 f)) (render_num n)
+                   then ryu64 fx (bits_of_b64 f) else render_num n                              (* Display's spelling -> ryu's *)
+       | None => render_num n                                                                   (* beyond f64: kept *)
+       end.
+Proof.
+  intros fx n Hok. destruct (int128_lit n) eqn:H; [|apply respell_nonint; assumption].
+  rewrite (respell_int fx n Hok H). unfold int128_lit in H. apply andb_prop in H as [H Hhi]. apply andb_prop in H as [Hi Hlo].
+  apply itoa_z_lit; [exact Hok|exact Hi|]. pose proof (lit_abs_nonneg n). unfold lit_int, U128_MAX, I128_MIN in *. destruct (nneg n); lia.
+Qed.
+
+Theorem canon_lit_spec : forall fx n, num_ok n = true ->
+  canon_lit fx (render_num n) =
+  if int128_lit n then negb (nneg n && (lit_abs n =? 0)%Z)
+  else match ap_as_f64 (render_num n) with
+       | Some f => beq_bytes (ryu64 fx (bits_of_b64 f)) (render_num n) || negb (beq_bytes (disp64 fx (bits_of_b64 f)) (render_num n))
+       | None => true
+       end.
+Proof.
+  intros fx n Hok. unfold canon_lit. rewrite (respell_lit_spec fx n Hok). destruct (int128_lit n).
+  - destruct (nneg n && (lit_abs n =? 0)%Z) eqn:Hz; cbn [negb]; [|apply beq_bytes_refl].
+    apply andb_prop in Hz as [Hneg _]. rewrite render_num_split, Hneg. reflexivity.
+  - destruct (ap_as_f64 (render_num n)) as [f|]; [|apply beq_bytes_refl].
+    destruct (beq_bytes (ryu64 fx (bits_of_b64 f)) (render_num n)) eqn:Hr; cbn [orb].
+    + exact Hr.
+    + destruct (beq_bytes (disp64 fx (bits_of_b64 f)) (render_num n)); cbn [negb]; [exact Hr|apply beq_bytes_refl].
+Qed.
+
+(* the canonical-spelling predicate: not `-0`, and, for a literal no integer accessor reads, not "Display's but not ryu's spelling" of
+   its nearest f64 *)
+Definition canonical_spelling (fx : fenv) (n : numlit) : Prop :=
+  render_num n <> neg_zero_lit
+  /\ (int128_lit n = false -> forall f, ap_as_f64 (render_num n) = Some f ->
+      disp64 fx (bits_of_b64 f) = render_num n -> ryu64 fx (bits_of_b64 f) = render_num n).
+
+Lemma neg_zero_lit_iff n : num_ok n = true -> (render_num n = neg_zero_lit <-> int128_lit n = true /\ nneg n = true /\ lit_abs n = 0%Z).
+Proof.
+  intros Hok. pose proof (f12b_true_iff Ty.I8 n Hok) as HF. unfold f12b in HF. cbn [int_signed is_128 negb andb] in HF.
+  rewrite beq_bytes_eq in HF. split.
+  - intros H. apply HF in H as (_ & _ & Hneg & Hint & Hf & Hx). unfold int128_lit, lit_is_int, lit_int, lit_abs. rewrite Hf, Hx, Hneg, Hint. repeat split.
+  - intros (Hi & Hneg & Hz). unfold int128_lit in Hi. apply andb_prop in Hi as [Hi _]. apply andb_prop in Hi as [Hi _].
+    apply neg_zero_render; assumption.
+Qed.
+
+Theorem canon_lit_iff : forall fx n, num_ok n = true -> (canon_lit fx (render_num n) = true <-> canonical_spelling fx n).
+Proof.
+  intros fx n Hok. rewrite (canon_lit_spec fx n Hok). unfold canonical_spelling. pose proof (neg_zero_lit_iff n Hok) as HZ.
+  destruct (int128_lit n) eqn:Hi.
+  - split.
+    + intros H. split; [|intros Hd; discriminate Hd]. intros Hnz. apply HZ in Hnz as (_ & Hneg & Hz). rewrite Hneg, Hz in H. discriminate H.
+    + intros [Hnz _]. destruct (nneg n) eqn:Hneg; [|reflexivity]. destruct (lit_abs n =? 0)%Z eqn:Hz; [|reflexivity].
+      exfalso. apply Hnz, HZ. apply Z.eqb_eq in Hz. auto.
+  - split.
+    + intros H. split; [intros Hnz; apply HZ in Hnz as (Hd & _); discriminate Hd|]. intros _ f Hf Hd. rewrite Hf in H.
+      rewrite <- Hd in H at 2. rewrite beq_bytes_refl in H. cbn [negb] in H. rewrite orb_false_r in H. apply beq_bytes_eq, H.
+    + intros [_ H]. destruct (ap_as_f64 (render_num n)) as [f|]; [|reflexivity].
+      destruct (beq_bytes (disp64 fx (bits_of_b64 f)) (render_num n)) eqn:Hd; cbn [negb]; [|apply orb_true_r].
+      apply beq_bytes_eq in Hd. rewrite (H eq_refl f eq_refl Hd). rewrite beq_bytes_refl. reflexivity.
+Qed.
+
+(* ================================================================================================================================
+   The three routes for T = Value
+   ================================================================================================================================ *)
+From SJ Require Import Model.Sval Model.Ser Model.ValueSer Spec.Layout Proofs.SerBase Proofs.SerRender Proofs.SerWf Proofs.SerDenote
+  Proofs.SerMain Proofs.SerFinal.
+
+(* completeness of the Value parser, any configuration *)
+Lemma complete_value_any cf c : complete_value cf c.
+Proof.
+  apply (GrammarValueComplete.complete_all cf).
+  - intros. eapply parse_str_complete; eauto.
+  - intros positive n rst off pk d Hn Hf p s' H. eapply number_local_ok; eauto.
+Qed.
+
+(* what to_string prints for a Value of this build: the rendering of a well-formed tree that denotes the Value and mirrors it *)
+Lemma ap_value_text cf fmt32 fmt64 v : arbitrary_precision cf = true -> ryu_json fmt32 fmt64 -> wf_value cf v = true ->
+  exists bufs c, serialize cf fmt32 fmt64 Compact (sval_of_value v) = Ok bufs /\ concat bufs = render c
+    /\ wfb c = true /\ denote cf c = Some v /\ shape2 (NRser cf fmt32 fmt64) c v.
+Proof.
+  intros Hap [H1 H2] W.
+  assert (H4 : ryu_reads_back_value cf fmt64) by (intros Hf; rewrite Hap in Hf; discriminate Hf).
+  destruct (value_image cf fmt32 fmt64 H4 (literal_kept_holds cf) v W) as [Ws Hi]. destruct (value_cst cf fmt32 fmt64 v) as [c Hc].
+  destruct (serialize_ok cf fmt32 fmt64 Compact _ c Ws Hc) as [bufs [Es C]]. rewrite print_compact in C.
+  destruct (C03_wf_nows cf fmt32 fmt64 H1 H2 _ c Ws Hc) as [G1 _].
+  assert (Dn : denote cf c = Some v) by (rewrite (C03_denotes_image cf fmt32 fmt64 H1 H2 _ c Ws Hc); exact Hi).
+  exists bufs, c. split; [exact Es|]. split; [exact C|]. split; [exact G1|]. split; [exact Dn|]. exact (value_shape2 cf fmt32 fmt64 v c W Hc).
+Qed.
+
+(* the text route into a Value: the parser, whatever the spelling *)
+Lemma text_route_value cf c v : wfb c = true -> denote cf c = Some v -> (limit_disabled cf = false -> (cdepth c <= 127)%nat) ->
+  from_input_typed (mkEnv RSlice TEof cf) TValue (render c) = TOk (DValue (Extract.Driver.show_value v)).
+Proof.
+  intros Hwf Hden Hdepth. unfold from_input_typed.
+  assert (Hf : typed_fuel TValue (render c) = S (typed_fuel TValue (render c) - 1)%nat) by (unfold typed_fuel; lia).
+  rewrite Hf. cbn [de_typed].
+  destruct (complete_value_any cf c (typed_fuel TValue (render c) - 1)%nat (init_st (render c)) [] [] v) as (s' & Hp & Hr & _); try assumption; try reflexivity.
+  - pose proof (vfuel_bound c). unfold typed_fuel. cbn [ty_depth]. lia.
+  - intros Hl. specialize (Hdepth Hl). cbn [init_st depth]. rewrite DEPTH0_eq. lia.
+  - cbn [init_st rest app]. rewrite app_nil_r. reflexivity.
+  - rewrite Hp. cbn [DeTyped.lift DeTyped.tbind]. destruct (de_end_nil cf s' Hr) as [s1 He]. rewrite He. reflexivity.
+Qed.
+
+(* F19 as a theorem.  For a well-formed Value of this build without a private-token object:
+     from_value::<Value>(v) = Value::deserialize(&v) = respell fx v            (every number literal re-spelled),
+     from_str::<Value>(&to_string(&v)) = v                                      (every number literal kept),
+   and respell fx v = v exactly when every number literal of v is in canonical spelling. *)
+Theorem C16_ap_value_respelled : forall cf fx fmt32 fmt64 v,
+  arbitrary_precision cf = true -> ryu_json fmt32 fmt64 -> wf_value cf v = true -> no_token v = true ->
+  value_of_value cf fx v = VOk (respell fx v)
+  /\ from_value_owned cf fx TValue v = VOk (DValue (Extract.Driver.show_value (respell fx v)))
+  /\ from_value_ref cf fx TValue v = VOk (DValue (Extract.Driver.show_value (respell fx v)))
+  /\ (respell fx v = v <-> canon_value fx v = true)
+  /\ exists bufs c, serialize cf fmt32 fmt64 Compact (sval_of_value v) = Ok bufs /\ concat bufs = render c /\
+       ((limit_disabled cf = false -> (cdepth c <= 127)%nat) ->
+        from_input_typed (mkEnv RSlice TEof cf) TValue (concat bufs) = TOk (DValue (Extract.Driver.show_value v))).
+Proof.
+  intros cf fx f32 f64 v Hap HR W T.
+  pose proof (value_of_value_respell cf fx Hap v W T) as HV.
+  split; [exact HV|]. split; [|split; [|split; [apply respell_id_iff|]]].
+  - unfold from_value_owned, value_de_fuel. cbn [ty_depth de_value_owned]. rewrite HV. reflexivity.
+  - unfold from_value_ref, value_de_fuel. cbn [ty_depth de_value_ref]. rewrite HV. reflexivity.
+  - destruct (ap_value_text cf f32 f64 v Hap HR W) as (bufs & c & Es & C & G & Dn & _).
+    exists bufs, c. split; [exact Es|]. split; [exact C|]. intros Hd. rewrite C. apply text_route_value; assumption.
+Qed.
+
+(* in particular: all three routes agree when the Value is canonical *)
+Corollary C16_ap_value_canonical : forall cf fx fmt32 fmt64 v,
+  arbitrary_precision cf = true -> ryu_json fmt32 fmt64 -> wf_value cf v = true -> no_token v = true -> canon_value fx v = true ->
+  exists bufs c, serialize cf fmt32 fmt64 Compact (sval_of_value v) = Ok bufs /\ concat bufs = render c /\
+    ((limit_disabled cf = false -> (cdepth c <= 127)%nat) ->
+     agree (from_value_owned cf fx TValue v) (from_input_typed (mkEnv RSlice TEof cf) TValue (concat bufs))
+     /\ agree (from_value_ref cf fx TValue v) (from_input_typed (mkEnv RSlice TEof cf) TValue (concat bufs))).
+Proof.
+  intros cf fx f32 f64 v Hap HR W T Hc.
+  destruct (C16_ap_value_respelled cf fx f32 f64 v Hap HR W T) as (_ & Ho & Hr & Hid & bufs & c & Es & C & Ht).
+  rewrite (proj2 Hid Hc) in Ho, Hr. exists bufs, c. split; [exact Es|]. split; [exact C|]. intros Hd. rewrite (Ht Hd), Ho, Hr.
+  split; cbn [agree]; eexists; split; reflexivity.
+Qed.
+
+(* ================================================================================================================================
+   Witnesses
+   ================================================================================================================================ *)
+(* a formatter pair that knows three floats the way Rust prints them: 1e-6, 100.0, 1e39 *)
+Definition lit_1em6 : bytes := [49; 101; 45; 54].                                  (* 1e-6 *)
+Definition lit_0_000001 : bytes := [48; 46; 48; 48; 48; 48; 48; 49].               (* 0.000001 *)
+Definition lit_100_0 : bytes := [49; 48; 48; 46; 48].                              (* 100.0 *)
+Definition lit_100 : bytes := [49; 48; 48].                                        (* 100 *)
+Definition lit_1E2 : bytes := [49; 69; 50].                                        (* 1E2 *)
+Definition lit_1e39 : bytes := [49; 101; 51; 57].                                  (* 1e39 *)
+Definition lit_10p39 : bytes := 49 :: repeat 48 39.                                (* 1 followed by 39 zeros *)
+Definition bits_1em6 : N := 4517329193108106637.
+Definition bits_100 : N := 4636737291354636288.
+Definition bits_1e39 : N := 5190260616003865117.
+Definition ex_fx : fenv :=
+  mkFenv (fun b => if b =? bits_1em6 then lit_1em6 else if b =? bits_100 then lit_100_0 else if b =? bits_1e39 then lit_1e39 else [])
+         (fun b => if b =? bits_1em6 then lit_0_000001 else if b =? bits_100 then lit_100 else if b =? bits_1e39 then lit_10p39 else []).
+Definition ex_cfa : cfg := mkCfg false false true false.
+Local Notation Ea := (mkEnv RSlice TEof ex_cfa).
+
+(* the re-spelling of single literals *)
+Example respell_neg_zero : respell_lit ex_fx [45; 48] = [48].                      (* -0 -> 0 *)
+Proof. vm_compute. reflexivity. Qed.
+Example respell_display_form : respell_lit ex_fx lit_0_000001 = lit_1em6.          (* 0.000001 -> 1e-6 *)
+Proof. vm_compute. reflexivity. Qed.
+Example respell_big_integer : respell_lit ex_fx lit_10p39 = lit_1e39.              (* 10^39 in 40 digits -> 1e39 *)
+Proof. vm_compute. reflexivity. Qed.
+(* ... and of literals that stay: 1E2 (neither ryu's "100.0" nor Display's "100"), 100.0 (ryu's own spelling), 1e-6, -0.0, 1.50 *)
+Example respell_keeps : respell_lit ex_fx lit_1E2 = lit_1E2 /\ respell_lit ex_fx lit_100_0 = lit_100_0 /\ respell_lit ex_fx lit_1em6 = lit_1em6
+  /\ respell_lit ex_fx [45; 48; 46; 48] = [45; 48; 46; 48] /\ respell_lit ex_fx [49; 46; 53; 48] = [49; 46; 53; 48]
+  /\ respell_lit ex_fx lit_100 = lit_100.
+Proof. repeat split; vm_compute; reflexivity. Qed.
+
+(* F19 on a Value: from_value::<Value>([1,-0,0.000001]) = [1,0,1e-6] while the text route returns [1,-0,0.000001] *)
+Definition ex_v19 : value := VArr [VNum (NLit [49]); VNum (NLit [45; 48]); VNum (NLit lit_0_000001)].
+Definition ex_v19_text : bytes := [91; 49; 44; 45; 48; 44] ++ lit_0_000001 ++ [93].
+Example F19_witness :
+  wf_value ex_cfa ex_v19 = true /\ no_token ex_v19 = true /\ canon_value ex_fx ex_v19 = false
+  /\ ser_value ex_v19 = ex_v19_text
+  /\ value_of_value ex_cfa ex_fx ex_v19 = VOk (VArr [VNum (NLit [49]); VNum (NLit [48]); VNum (NLit lit_1em6)])
+  /\ from_input Ea ex_v19_text = Ok ex_v19
+  /\ from_value_owned ex_cfa ex_fx TValue ex_v19 <> VOk (DValue (Extract.Driver.show_value ex_v19))
+  /\ from_input_typed Ea TValue ex_v19_text = TOk (DValue (Extract.Driver.show_value ex_v19)).
+Proof. repeat split; try (vm_compute; reflexivity). vm_compute. discriminate. Qed.
+(* ... also inside a typed container: Vec<Value> *)
+Example F19_witness_vec :
+  from_value_owned ex_cfa ex_fx (TSeq TValue) (VArr [VNum (NLit [45; 48])]) = VOk (DSeq [DValue (Extract.Driver.show_value (VNum (NLit [48])))])
+  /\ from_input_typed Ea (TSeq TValue) [91; 45; 48; 93] = TOk (DSeq [DValue (Extract.Driver.show_value (VNum (NLit [45; 48])))]).
+Proof. split; vm_compute; reflexivity. Qed.
+
+(* the private token as a first key (the Value-route side of F23): {"$serde_json::private::Number":"12"} becomes the Number 12,
+   with a non-number payload or a second member the conversion fails; the text-route MODEL reads an object (finding F23: the real
+   crate reinterprets the text, too — Model/De.v has no such branch) *)
+Example token_object_value_route :
+  value_of_value ex_cfa ex_fx (VObj [(NUMBER_TOKEN_V, VStr [49; 50])]) = VOk (VNum (NLit [49; 50]))
+  /\ value_of_value ex_cfa ex_fx (VObj [(NUMBER_TOKEN_V, VStr [97])]) = VErr (Message MCustom) 0 0
+  /\ value_of_value ex_cfa ex_fx (VObj [(NUMBER_TOKEN_V, VStr [49]); ([120], VNull)]) = VErr (Message MInvalidLength) 0 0
+  /\ no_token (VObj [(NUMBER_TOKEN_V, VStr [49; 50])]) = false.
+Proof. repeat split; vm_compute; reflexivity. Qed.
+
+(* the canonical-spelling predicate on the witnesses *)
+Example canon_examples :
+  canon_lit ex_fx [45; 48] = false /\ canon_lit ex_fx lit_0_000001 = false /\ canon_lit ex_fx lit_10p39 = false
+  /\ canon_lit ex_fx lit_1E2 = true /\ canon_lit ex_fx [45; 48; 46; 48] = true /\ canon_lit ex_fx [48] = true.
+Proof. repeat split; vm_compute; reflexivity. Qed.
+
+Print Assumptions value_of_value_respell.
+Print Assumptions respell_id_iff.
+Print Assumptions canon_lit_iff.
+Print Assumptions C16_ap_value_respelled.
+Print Assumptions C16_ap_value_canonical.
